@@ -274,6 +274,48 @@ func (c *Ctx) escaperSinksCtx(pkg *packages.Package, fd *ast.FuncDecl, r rune, b
 	return ev.sinks, true
 }
 
+// jsonEscaperDecl resolves the function that escapes a string for the JSON
+// document: jsonExporter.String itself, or the function of the package it
+// hands the string to (two levels), found by its loop over the runes.
+func (c *Ctx) jsonEscaperDecl(ep *packages.Package) *ast.FuncDecl {
+	info := ep.TypesInfo
+	start := c.FuncDecl(ep, "jsonExporter", "String")
+	if start == nil {
+		return nil
+	}
+	hasRuneLoop := func(fd *ast.FuncDecl) bool {
+		return containsNode(fd.Body, func(x ast.Node) bool {
+			rs, ok := x.(*ast.RangeStmt)
+			if !ok {
+				return false
+			}
+			b, ok := info.TypeOf(rs.X).Underlying().(*types.Basic)
+			return ok && b.Info()&types.IsString != 0
+		})
+	}
+	cur := []*ast.FuncDecl{start}
+	for depth := 0; depth < 3; depth++ {
+		var next []*ast.FuncDecl
+		for _, fd := range cur {
+			if hasRuneLoop(fd) {
+				return fd
+			}
+			ast.Inspect(fd.Body, func(x ast.Node) bool {
+				if call, ok := x.(*ast.CallExpr); ok {
+					if cal := Callee(info, call); cal != nil && cal.Pkg() == ep.Types {
+						if d := findFuncDecl(ep, cal); d != nil && d.Body != nil {
+							next = append(next, d)
+						}
+					}
+				}
+				return true
+			})
+		}
+		cur = next
+	}
+	return start
+}
+
 // ---------------------------------------------------------------------------
 // R17.1 JSON string escaper
 
@@ -283,7 +325,7 @@ func ruleR171(c *Ctx) {
 		c.Undecided("package value/export", token.NoPos, "not found")
 		return
 	}
-	fd := c.FuncDecl(ep, "jsonExporter", "String")
+	fd := c.jsonEscaperDecl(ep)
 	if fd == nil {
 		c.Undecided("value/export.jsonExporter.String", token.NoPos, "not found")
 		return
@@ -378,6 +420,14 @@ func ruleR172(c *Ctx) {
 		return
 	}
 	info := ep.TypesInfo
+	isCommaWrite := func(x ast.Node) bool {
+		call, ok := x.(*ast.CallExpr)
+		if !ok || len(call.Args) < 1 {
+			return false
+		}
+		tv := info.Types[call.Args[len(call.Args)-1]]
+		return tv.Value != nil && tv.Value.Kind() == constant.String && constant.StringVal(tv.Value) == ","
+	}
 	for _, typ := range []struct{ name, open, close string }{{"jsonListExporter", "[", "]"}, {"jsonMapExporter", "{", "}"}} {
 		add := c.FuncDecl(ep, typ.name, "Add")
 		key := "value/export." + typ.name
@@ -385,10 +435,306 @@ func ruleR172(c *Ctx) {
 			c.Undecided(key, token.NoPos, "Add not found")
 			continue
 		}
-		recv := info.Defs[add.Recv.List[0].Names[0]]
+		addRecv := info.Defs[add.Recv.List[0].Names[0]]
 		var problems []string
-		// (i) every literal starts with first: true
+		undecided := ""
+		// (i) where is the separator logic: in Add, or in a method Add calls on a part of its receiver
+		sep := add
+		var path []string // field path from the container to the separator state (empty: the container itself)
+		if !containsNode(add.Body, isCommaWrite) {
+			sep = nil
+			ast.Inspect(add.Body, func(x ast.Node) bool {
+				call, ok := x.(*ast.CallExpr)
+				if !ok || sep != nil {
+					return true
+				}
+				sel, ok := ast.Unparen(call.Fun).(*ast.SelectorExpr)
+				if !ok {
+					return true
+				}
+				cal := Callee(info, call)
+				if cal == nil || cal.Pkg() != ep.Types {
+					return true
+				}
+				d := findFuncDecl(ep, cal)
+				if d == nil || d.Body == nil || d.Recv == nil || !containsNode(d.Body, isCommaWrite) {
+					return true
+				}
+				// receiver expression: a field chain rooted in Add's receiver
+				var p []string
+				cur := ast.Unparen(sel.X)
+				for {
+					if s2, ok := cur.(*ast.SelectorExpr); ok {
+						p = append([]string{s2.Sel.Name}, p...)
+						cur = ast.Unparen(s2.X)
+						continue
+					}
+					break
+				}
+				if id, ok := cur.(*ast.Ident); ok && info.ObjectOf(id) == addRecv && len(p) > 0 {
+					sep, path = d, p
+				}
+				return true
+			})
+		}
+		if sep == nil || len(sep.Recv.List[0].Names) != 1 {
+			c.Violation(key, add.Pos(), "no separator is written between the members")
+			continue
+		}
+		sepRecv := info.Defs[sep.Recv.List[0].Names[0]]
+		// (ii) persistence: updates of the state must reach the container: pointer receivers, value fields on the path
+		isPtrRecv := func(fd *ast.FuncDecl) bool {
+			_, ok := fd.Recv.List[0].Type.(*ast.StarExpr)
+			return ok
+		}
+		if !isPtrRecv(add) {
+			problems = append(problems, "Add has a value receiver: the separator state it updates is lost after each member")
+		}
+		if sep != add && !isPtrRecv(sep) {
+			problems = append(problems, sep.Name.Name+" has a value receiver: the separator state it updates is lost")
+		}
+		// the state type and its path: every field on the path is held by value (a pointer could be shared between containers)
+		contT := LookupType(ep, typ.name)
+		var stateT types.Type
+		if contT != nil {
+			stateT = contT.Type()
+			for _, fname := range path {
+				st, ok := stateT.Underlying().(*types.Struct)
+				if !ok {
+					undecided = "separator state is not reached through struct fields"
+					break
+				}
+				var ft types.Type
+				for i := 0; i < st.NumFields(); i++ {
+					if st.Field(i).Name() == fname {
+						ft = st.Field(i).Type()
+					}
+				}
+				if ft == nil {
+					undecided = "field " + fname + " not found"
+					break
+				}
+				if _, isPtr := ft.Underlying().(*types.Pointer); isPtr {
+					problems = append(problems, "the separator state is held through the pointer field "+fname+": it can be shared between containers, nested and sibling containers then disturb each other")
+				}
+				stateT = ft
+			}
+		}
+		if undecided == "" && len(problems) > 0 {
+			c.Violation(key, sep.Pos(), "%s", strings.Join(problems, "; "))
+			continue
+		}
+		// (iii) the flag: the one bool field of the separator's receiver it tests
+		flag := ""
+		var flagChain []string // fields between the separator's receiver and the flag
+		ast.Inspect(sep.Body, func(x ast.Node) bool {
+			sel, ok := x.(*ast.SelectorExpr)
+			if !ok {
+				return true
+			}
+			if b, ok := info.TypeOf(sel).Underlying().(*types.Basic); !ok || b.Kind() != types.Bool {
+				return true
+			}
+			if fs, ok := info.Selections[sel]; !ok || fs.Kind() != types.FieldVal {
+				return true
+			}
+			var chain []string
+			cur := ast.Unparen(sel.X)
+			for {
+				if s2, ok := cur.(*ast.SelectorExpr); ok {
+					chain = append([]string{s2.Sel.Name}, chain...)
+					cur = ast.Unparen(s2.X)
+					continue
+				}
+				break
+			}
+			if id, ok := cur.(*ast.Ident); !ok || info.ObjectOf(id) != sepRecv {
+				return true
+			}
+			name := strings.Join(append(append([]string{}, chain...), sel.Sel.Name), ".")
+			if flag == "" || flag == name {
+				flag = name
+				flagChain = chain
+			} else {
+				flag = "?"
+			}
+			return false
+		})
+		if flag == "" || flag == "?" {
+			c.Undecided(key, sep.Pos(), "the separator logic does not depend on exactly one boolean field reachable from its receiver")
+			continue
+		}
+		if len(flagChain) > 0 {
+			// the flag lives in a part of the receiver: that part must be held by value all the way
+			t := info.TypeOf(sep.Recv.List[0].Type)
+			if pt, ok := t.(*types.Pointer); ok {
+				t = pt.Elem()
+			}
+			for _, fname := range flagChain {
+				if pt, ok := t.Underlying().(*types.Pointer); ok {
+					t = pt.Elem()
+				}
+				st, ok := t.Underlying().(*types.Struct)
+				if !ok {
+					break
+				}
+				for i := 0; i < st.NumFields(); i++ {
+					if st.Field(i).Name() == fname {
+						t = st.Field(i).Type()
+						if _, isPtr := t.Underlying().(*types.Pointer); isPtr {
+							problems = append(problems, "the separator state "+flag+" is held through the pointer field "+fname+": it is shared between all containers of one export, so nested and sibling containers disturb each other (e.g. a missing ',' behind an empty nested container)")
+						}
+					}
+				}
+			}
+			if len(problems) > 0 {
+				c.Violation(key, sep.Pos(), "%s", strings.Join(problems, "; "))
+				continue
+			}
+			flag = flag[strings.LastIndex(flag, ".")+1:]
+			path = append(path, flagChain...)
+		}
+		// abstract run of the separator logic for a value of the flag
+		type outcome struct {
+			comma, val, ok bool
+		}
+		run := func(v bool) outcome {
+			o := outcome{val: v, ok: true}
+			var walk func(stmts []ast.Stmt) bool // true: returned
+			condVal := func(e ast.Expr) (bool, bool) {
+				e = ast.Unparen(e)
+				neg := false
+				if u, ok := e.(*ast.UnaryExpr); ok && u.Op == token.NOT {
+					neg = true
+					e = ast.Unparen(u.X)
+				}
+				if sel, ok := e.(*ast.SelectorExpr); ok && sel.Sel.Name == flag {
+					if id := rootIdent(sel.X); id != nil && info.ObjectOf(id) == sepRecv {
+						return o.val != neg, true
+					}
+				}
+				return false, false
+			}
+			walk = func(stmts []ast.Stmt) bool {
+				for _, s := range stmts {
+					switch t := s.(type) {
+					case *ast.IfStmt:
+						if cv, known := condVal(t.Cond); known {
+							if cv {
+								if walk(t.Body.List) {
+									return true
+								}
+							} else if t.Else != nil {
+								switch e := t.Else.(type) {
+								case *ast.BlockStmt:
+									if walk(e.List) {
+										return true
+									}
+								case *ast.IfStmt:
+									if walk([]ast.Stmt{e}) {
+										return true
+									}
+								}
+							}
+							continue
+						}
+						// another condition (error handling): must not touch the flag or the comma
+						if containsNode(t, isCommaWrite) || containsNode(t, func(y ast.Node) bool {
+							sel, ok := y.(*ast.SelectorExpr)
+							return ok && sel.Sel.Name == flag
+						}) {
+							o.ok = false
+						}
+					case *ast.AssignStmt:
+						if containsNode(t, isCommaWrite) {
+							o.comma = true
+						}
+						if len(t.Lhs) == 1 && len(t.Rhs) == 1 {
+							if sel, ok := ast.Unparen(t.Lhs[0]).(*ast.SelectorExpr); ok && sel.Sel.Name == flag {
+								if tv := info.Types[t.Rhs[0]]; tv.Value != nil && tv.Value.Kind() == constant.Bool {
+									o.val = constant.BoolVal(tv.Value)
+								} else {
+									o.ok = false
+								}
+							}
+						}
+					case *ast.ExprStmt:
+						if containsNode(t, isCommaWrite) {
+							o.comma = true
+						}
+					case *ast.ReturnStmt:
+						if containsNode(t, isCommaWrite) {
+							o.comma = true
+						}
+						return true
+					case *ast.BlockStmt:
+						if walk(t.List) {
+							return true
+						}
+					default:
+						if containsNode(s, isCommaWrite) {
+							o.ok = false
+						}
+					}
+				}
+				return false
+			}
+			// Add itself continues with the export of the member behind the separator logic: stop there
+			walk(sep.Body.List)
+			return o
+		}
+		// (iv) the initial value of the flag in a new container
+		initVals := map[bool]bool{}
 		nLit := 0
+		var flagInit func(e ast.Expr, t types.Type, p []string, depth int) (bool, bool)
+		flagInit = func(e ast.Expr, t types.Type, p []string, depth int) (bool, bool) {
+			// value of the flag in the struct value e of type t, following path p
+			e = ast.Unparen(e)
+			if u, ok := e.(*ast.UnaryExpr); ok && u.Op == token.AND {
+				e = ast.Unparen(u.X)
+			}
+			switch v := e.(type) {
+			case *ast.CompositeLit:
+				want := flag
+				if len(p) > 0 {
+					want = p[0]
+				}
+				for _, el := range v.Elts {
+					if kv, ok := el.(*ast.KeyValueExpr); ok {
+						if k, ok := kv.Key.(*ast.Ident); ok && k.Name == want {
+							if len(p) == 0 {
+								if tv := info.Types[kv.Value]; tv.Value != nil && tv.Value.Kind() == constant.Bool {
+									return constant.BoolVal(tv.Value), true
+								}
+								return false, false
+							}
+							return flagInit(kv.Value, nil, p[1:], depth)
+						}
+					}
+				}
+				return false, true // zero value
+			case *ast.CallExpr:
+				if depth < 2 {
+					if cal := Callee(info, v); cal != nil && cal.Pkg() == ep.Types {
+						if d := findFuncDecl(ep, cal); d != nil && d.Body != nil {
+							var res *ast.ReturnStmt
+							nRet := 0
+							inspectNoLit(d.Body, func(y ast.Node) bool {
+								if r, ok := y.(*ast.ReturnStmt); ok && len(r.Results) == 1 {
+									res = r
+									nRet++
+								}
+								return true
+							})
+							if nRet == 1 {
+								return flagInit(res.Results[0], nil, p, depth+1)
+							}
+						}
+					}
+				}
+			}
+			return false, false
+		}
 		for _, f := range ep.Syntax {
 			ast.Inspect(f, func(x ast.Node) bool {
 				cl, ok := x.(*ast.CompositeLit)
@@ -396,76 +742,53 @@ func ruleR172(c *Ctx) {
 					return true
 				}
 				nLit++
-				okFirst := false
-				for _, el := range cl.Elts {
-					if kv, ok := el.(*ast.KeyValueExpr); ok {
-						if k, ok := kv.Key.(*ast.Ident); ok && k.Name == "first" {
-							if tv := info.Types[kv.Value]; tv.Value != nil && constant.BoolVal(tv.Value) {
-								okFirst = true
-							}
-						}
-					}
+				v, ok := flagInit(cl, nil, path, 0)
+				if !ok {
+					undecided = "the initial value of the separator state in " + nodeStr(c.Fset, cl) + " is not understood"
+					return true
 				}
-				if !okFirst {
-					problems = append(problems, "a container exporter is created without first:true (a separator is written in front of the first member)")
-				}
+				initVals[v] = true
 				return true
 			})
+		}
+		if undecided != "" {
+			c.Undecided(key, add.Pos(), "%s", undecided)
+			continue
 		}
 		if nLit == 0 {
 			problems = append(problems, "no literal of the exporter found")
 		}
-		// (ii) the comma is written exactly when the receiver's own first flag is false, and the flag is cleared otherwise
-		g := c.CFG(add)
-		var comma *ast.CallExpr
-		ast.Inspect(add.Body, func(x ast.Node) bool {
-			if call, ok := x.(*ast.CallExpr); ok && len(call.Args) == 1 {
-				if tv := info.Types[call.Args[0]]; tv.Value != nil && tv.Value.Kind() == constant.String && constant.StringVal(tv.Value) == "," {
-					comma = call
-				}
-			}
-			return true
-		})
-		ownFirst := func(e ast.Expr) bool {
-			sel, ok := ast.Unparen(e).(*ast.SelectorExpr)
-			if !ok || sel.Sel.Name != "first" {
-				return false
-			}
-			id, ok := ast.Unparen(sel.X).(*ast.Ident)
-			return ok && info.ObjectOf(id) == recv
+		if len(initVals) > 1 {
+			problems = append(problems, "containers are created with different initial separator states")
 		}
-		if comma == nil {
-			problems = append(problems, "no separator is written between the members")
-		} else {
-			guarded := false
-			for _, gd := range g.Guards(comma) {
-				if !gd.Val && ownFirst(gd.Cond) {
-					guarded = true
-				}
+		for v0 := range initVals {
+			first := run(v0)
+			if !first.ok {
+				c.Undecided(key, sep.Pos(), "the separator logic is not understood")
+				problems = nil
+				break
 			}
-			if !guarded {
-				problems = append(problems, "the separator is not written under 'the flag first of this very container is false' (a flag shared between containers, or another condition, lets nested and sibling containers disturb each other)")
+			if first.comma {
+				problems = append(problems, fmt.Sprintf("a new container starts with %s=%v, for which a separator is written in front of the first member", flag, v0))
 			}
-			cleared := false
-			ast.Inspect(add.Body, func(x ast.Node) bool {
-				as, ok := x.(*ast.AssignStmt)
-				if !ok || len(as.Lhs) != 1 || len(as.Rhs) != 1 || !ownFirst(as.Lhs[0]) {
-					return true
+			if first.val == v0 {
+				problems = append(problems, fmt.Sprintf("the state %s is not changed when the first member is written: no separator is ever written between the members of this container", flag))
+			} else {
+				second := run(first.val)
+				if !second.ok {
+					c.Undecided(key, sep.Pos(), "the separator logic is not understood")
+					problems = nil
+					break
 				}
-				if tv := info.Types[as.Rhs[0]]; tv.Value != nil && !constant.BoolVal(tv.Value) {
-					for _, gd := range g.Guards(as) {
-						if gd.Val && ownFirst(gd.Cond) {
-							cleared = true
-						}
-					}
+				if !second.comma {
+					problems = append(problems, "no separator is written in front of the second member")
 				}
-				return true
-			})
-			if !cleared {
-				problems = append(problems, "the flag first is not cleared when the first member is written")
+				if second.val != first.val {
+					problems = append(problems, fmt.Sprintf("the state %s flips back with the second member: separators are missing in front of every other member", flag))
+				}
 			}
 		}
-		// (iii) Open / Close write the matching brackets
+		// (v) Open / Close write the matching brackets
 		for _, m := range []struct{ name, want string }{{"Open", typ.open}, {"Close", typ.close}} {
 			fd := c.FuncDecl(ep, typ.name, m.name)
 			if fd == nil {
@@ -485,7 +808,7 @@ func ruleR172(c *Ctx) {
 				problems = append(problems, fmt.Sprintf("%s writes %q instead of %q", m.name, written, m.want))
 			}
 		}
-		c.Check(len(problems) == 0, key, add.Pos(), "starts with first:true, writes ',' exactly in front of every member but the first of this container, and the matching brackets", strings.Join(problems, "; "))
+		c.Check(len(problems) == 0, key, add.Pos(), "the separator state belongs to the container and survives Add; a new container writes no ',' in front of its first member and one in front of every further member; matching brackets", strings.Join(problems, "; "))
 	}
 }
 
@@ -500,13 +823,23 @@ func ruleR173(c *Ctx) {
 	}
 	info := ep.TypesInfo
 	n := 0
+	escaper := c.jsonEscaperDecl(ep)
+	// the files that declare the JSON exporter types: everything in them writes into the JSON document
+	jsonFiles := map[string]bool{}
+	for _, f := range ep.Syntax {
+		for _, d := range f.Decls {
+			if fd, ok := d.(*ast.FuncDecl); ok && fd.Recv != nil && strings.HasPrefix(recvTypeName(fd.Recv.List[0].Type), "json") {
+				jsonFiles[c.Fset.Position(f.Pos()).Filename] = true
+			}
+		}
+	}
 	for _, f := range ep.Syntax {
 		for _, d := range f.Decls {
 			fd, ok := d.(*ast.FuncDecl)
-			if !ok || fd.Body == nil || fd.Recv == nil || !strings.HasPrefix(recvTypeName(fd.Recv.List[0].Type), "json") {
+			if !ok || fd.Body == nil || !jsonFiles[c.Fset.Position(f.Pos()).Filename] {
 				continue
 			}
-			isEscaper := recvTypeName(fd.Recv.List[0].Type) == "jsonExporter" && fd.Name.Name == "String"
+			isEscaper := fd == escaper
 			ast.Inspect(fd.Body, func(x ast.Node) bool {
 				call, ok := x.(*ast.CallExpr)
 				if !ok {
@@ -539,7 +872,7 @@ func ruleR173(c *Ctx) {
 			})
 		}
 	}
-	if n < 8 {
+	if n < 5 {
 		c.Undecided("value/export#json-buffer-writes", token.NoPos, "only %d buffer writes found", n)
 	}
 }
